@@ -40,6 +40,8 @@ var auxStore = map[int]stackage.Auxiliary{}
 
 // auxOf returns the harness Auxiliary map with identity id (id >= 1); it holds id entries.
 func auxOf(id int) stackage.Auxiliary {
+	storeMu.Lock()
+	defer storeMu.Unlock()
 	if a, ok := auxStore[id]; ok {
 		return a
 	}
@@ -62,6 +64,8 @@ func auxNamePtr(isNil bool, p uintptr, n int) string {
 	if isNil {
 		return "-"
 	}
+	storeMu.Lock()
+	defer storeMu.Unlock()
 	for id, m := range auxStore {
 		if reflect.ValueOf(m).Pointer() == p {
 			if n != id {
